@@ -14,6 +14,15 @@ ASSUMPTIONS = ["histories are executed against the real runtime.guarded()/add_gu
                "iteration only / in an if without else / in a loop body), the caller catches it and goes on; oracle on the real code only "
                "(no model counterpart): the guard triple after the caught error is the one from before the block (values and object "
                "identity), and a later false assertion at a live level is still rejected",
+               "`_breakif` at every place of the real block API: directly in a `_while`/`_range` body and inside the `_if` / `_else` arm of an "
+               "`_if(d)` within such a loop, w, d, c in {0,1}, int and secret loop bounds, optionally below guarded(0/1) or a taken / "
+               "not-taken `_if`; every (loop form, enclosing region, arm, w, d, c) on every seed plus random ones with 1-3 iterations and a "
+               "second direct `_breakif`; a plain-Python model of the nesting kept next to the run (one 0/1 value per open region, an "
+               "accepted `_breakif(c)` and-s 1-c into the innermost loop, a refused one - the unchanged tree raises AttributeError when "
+               "the innermost open block is not a loop, before touching any state - changes nothing) gives, at 8-10 probe points per "
+               "iteration, the conjunction the effective guard VALUE must equal; error suppression = (conjunction false), LinComb.ONE is "
+               "the guard, a false assertion is tolerated exactly in dead code; the triple after the loop = the triple before. Python "
+               "oracle only (the block API has no model counterpart in C08)",
                "every guarded() region of a history is ONE decorator object guarded(cond) decorating ONE function; re-entry events activate "
                "that same decorator object again while it is active, either by recursion of the decorated function (R) or by decorating a "
                "callee with the same decorator object (RS), to any depth, around any other event (raises, failing operations, try/except, "
@@ -252,6 +261,104 @@ def block_histories(ctx, ex, extended):
             ex.samples.append(line)
 
 
+
+def breakif_program(loop, wrap, place, w, d, c, iters=2, direct=None, rnd=None):
+    """`_breakif(c)` inside the `place` arm of an `_if(d)` within a loop of condition `w`, optionally below guarded(g) / a taken
+    or not-taken `_if`; probes at every point where the set of enclosing conditions changes"""
+    B = lambda v: ["B", v] if rnd is None or rnd.random() < 0.7 else (["C", 1, 3] if v else ["C", 3, 1])
+    arm = [["probe", "arm-before-break"], ["breakif", B(c)], ["probe", "arm-after-break"], ["set", "z", 4], ["probe", "arm-end"]]
+    other = [["probe", "other-arm"], ["set", "z", 5]]
+    iff = ["if", [[B(d), arm if place == "if-arm" else other]], other if place == "if-arm" else arm]
+    body = [["probe", "loop-top"], iff, ["probe", "after-endif"]]
+    if direct is not None:
+        body += [["breakif", B(direct)], ["probe", "after-direct-break"]]
+    body += [["set", "z", 6], ["probe", "iteration-end"]]
+    if loop == "while": lp = ["while", B(w), iters, body]
+    elif loop == "for-int": lp = ["for", iters, None, body]
+    else: lp = ["for", ["S", (iters if w else 0)], iters, body]          # secret stop: w = 0 -> no live iteration
+    inner = [["probe", "before-loop"], ["try", [lp]], ["probe", "after-loop"]]
+    if wrap == "none": prog = inner
+    elif wrap in ("guarded1", "guarded0"): prog = [["guarded", B(int(wrap[-1])), inner]]
+    elif wrap in ("if1", "if0"): prog = [["if", [[B(int(wrap[-1])), inner]], [["set", "z", 1]]]]
+    else: raise ValueError(wrap)
+    return [["set", "z", 2]] + prog + [["probe", "end"]]
+
+
+def breakif_family():
+    """every (loop form, enclosing region, arm, w, d, c), run on every seed"""
+    out = []
+    for loop in ("while", "for-int", "for-secret"):
+        for wrap in ("none", "guarded1", "guarded0"):
+            for place in ("if-arm", "else-arm"):
+                for w in (0, 1):
+                    for d in (0, 1):
+                        for c in (0, 1):
+                            if loop == "for-int" and w == 0: continue
+                            out.append((breakif_program(loop, wrap, place, w, d, c),
+                                        {"loop": loop, "wrap": wrap, "place": place, "wdc": f"{w}{d}{c}", "direct": None}))
+    return out
+
+
+def conjunction_histories(ctx, ex, extended):
+    """`_breakif` inside `_if`/`_else` arms within `_while`/`_range` loops: at every probe the effective guard is the conjunction of
+    the enclosing conditions given by a plain-Python model of the nesting (worker_blockguard.py); the unchanged tree refuses such a
+    `_breakif` (AttributeError, nothing changes), which the model follows; a run that goes on must satisfy the conjunction rule"""
+    import json
+    rnd = ctx.rnd
+    jobs = breakif_family()
+    for _ in range(ctx.n(250, 5000) * (3 if extended else 1)):
+        loop = rnd.choice(["while", "while", "for-int", "for-secret"]); wrap = rnd.choice(["none", "none", "guarded1", "guarded0", "if1", "if0"])
+        place = rnd.choice(["if-arm", "else-arm"]); w, d, c = (rnd.choice([0, 1, 1]) for _ in range(3))
+        if loop == "for-int": w = 1
+        direct = rnd.choice([None, None, 0, 1])
+        jobs.append((breakif_program(loop, wrap, place, w, d, c, iters=rnd.choice([1, 2, 3]), direct=direct, rnd=rnd),
+                     {"loop": loop, "wrap": wrap, "place": place, "wdc": f"{w}{d}{c}", "direct": direct}))
+    lines = [f"BG|cj{i}|p={common.BN128},bl=8|" + json.dumps(prog) for i, (prog, _) in enumerate(jobs)]
+    outs = common.run_workers(lines, script="worker_blockguard.py", nproc=4)
+    for line, (prog, meta), o in zip(lines, jobs, outs):
+        f = o.split("|", 7)
+        if len(f) < 8 or f[1] == "harness-error":
+            raise common.Infra("worker_blockguard: " + o[:400])
+        ex.evaluations += 1
+        rep = json.loads(f[7])
+        ex.distinct.add(("breakif", json.dumps(prog)))
+        outcome = "accepted" if "accepted" in rep["breakif"][:1] else "refused" if rep["breakif"] else "not-reached"
+        ex.count(f"breakif:{meta['loop']}:{meta['place']}:wrap-{meta['wrap']}:{outcome}")
+        payload = {"line": line, "source": rep["source"], "conjunction_probes": rep["cprobes"], "breakif": rep["breakif"], "status": f[1]}
+        sig = {"clause": "conjunction", "via": "block-breakif", "place": meta["place"], "loop": meta["loop"].split("-")[0]}
+        if f[1] != "ok":
+            ex.violations.append(Violation(dict(sig, dev="raises", error=f[1].split(":")[-1]),
+                                           f"block API: `_breakif` inside the {meta['place']} of an `_if` within a {meta['loop']} loop "
+                                           f"(w,d,c = {meta['wdc']}, {meta['wrap']}): the run ends with {f[1]}", payload))
+            continue
+        ex.traces_validated += 1
+        bad = None
+        for pr in rep["cprobes"]:
+            dead = pr["expect"] == 0
+            if pr["guard"] != pr["expect"]: bad = ("guard", pr, f"effective guard value {pr['guard']}, conjunction of the enclosing conditions {pr['expect']}")
+            elif pr["ign"] != dead: bad = ("error-suppression", pr, f"error suppression is {pr['ign']} where the conjunction is {pr['expect']}")
+            elif not pr["one_is_guard"]: bad = ("one", pr, "LinComb.ONE is not the guard in effect")
+            elif (pr["false_assertion"] == "tolerated") != dead:
+                bad = ("false-assertion", pr, f"a false assertion is {pr['false_assertion']} where the conjunction is {pr['expect']}")
+            if bad: break
+        if bad:
+            q, pr, msg = bad
+            ex.violations.append(Violation(dict(sig, quantity=q, where=pr["label"], breakif=outcome),
+                                           f"block API: `_breakif` ({outcome}) inside the {meta['place']} of an `_if` within a {meta['loop']} loop, "
+                                           f"w,d,c = {meta['wdc']}, enclosing region {meta['wrap']}: at probe `{pr['label']}` (nesting "
+                                           f"{pr['nesting']}) {msg}", payload))
+            continue
+        unrestored = [pr for pr in rep["probes"] if not pr["restored"]]
+        if unrestored:
+            pr = unrestored[0]
+            ex.violations.append(Violation(dict(sig, quantity="restore", breakif=outcome),
+                                           f"block API: after the loop with a `_breakif` ({outcome}) in an {meta['place']} the guard triple is "
+                                           f"{pr['after']} (before the loop: {pr['before']})", payload))
+        elif not (f[2] == "G=N" and f[3] == "IGN=0"):
+            ex.violations.append(Violation(dict(sig, quantity="restore-final", breakif=outcome),
+                                           f"block API: the history ends with guard state {f[2]} {f[3]}", payload))
+
+
 def explore(ctx, extended=False, focus=None):
     ex = Exploration()
     ex.rule = ("random trees of events (guarded() regions with conditions of kind secret-int / secret-bool / int and values 0/1 and "
@@ -338,6 +445,7 @@ def explore(ctx, extended=False, focus=None):
         if md >= 2 and (len(ex.samples) < 3 or (len(ex.samples) < 8 and int(fa[0][1:]) >= len(fixed))):
             ex.samples.append(line.split("|", 2)[2])
     block_histories(ctx, ex, extended)
+    conjunction_histories(ctx, ex, extended)
     return ex
 
 
